@@ -228,3 +228,20 @@ Proof.
   - intros. split; [intros; apply sqrt2_00_plain; assumption | apply (sqrt2_00_increasing L N Nn bl bu eps); assumption].
 Qed.
 Print Assumptions C10_sqrt_form_special_cases_increase.
+
+(* ... and the monotonic forms are strictly increasing AS FUNCTIONS between any two points of [0, N] (mean-value theorem on
+   C10_monotonic_forms_increase's gradients), not only at grid indices *)
+Theorem C10_monotonic_forms_increase_as_functions : forall L N Nn dl du, 0 < N -> 0 < Nn -> 0 < dl -> 0 < du ->
+  (forall eps, 0 <= eps -> L >= (du + dl) / 2 * (N / Nn) - eps -> 3 * eps * Nn / (2 * N) < Rmin dl du ->
+     forall x y, 0 <= x -> x < y -> y <= N -> S_mono_convex_main L N Nn dl du x < S_mono_convex_main L N Nn dl du y) /\
+  (forall l1, 0 < l1 ->
+     let l2 := S_mono_concave_l2 L N Nn dl du l1 in let l3 := S_mono_concave_l3 L N Nn dl du l1 in
+     let r2 := S_mono_concave_r2 L N Nn dl du l1 in let r3 := S_mono_concave_r3 L N Nn dl du l1 in
+     forall x y, 0 <= x -> x < y -> y <= N ->
+       S_mono_concave_main L N Nn dl du l1 l2 l3 r2 r3 x < S_mono_concave_main L N Nn dl du l1 l2 l3 r2 r3 y).
+Proof.
+  intros L N Nn dl du HN HNn Hl Hu. split.
+  - intros eps He HL Hs. apply (convex_increasing L N Nn dl du eps); assumption.
+  - intros l1 H1. cbv zeta. apply (concave_increasing L N Nn dl du l1); assumption.
+Qed.
+Print Assumptions C10_monotonic_forms_increase_as_functions.
